@@ -1,6 +1,6 @@
 """Per-property checks: scenario families, what is decided by which part of
 the specification, verdict + evidence."""
-import argparse
+import argparse, shutil, re
 import zlib
 import json
 import os
@@ -999,6 +999,7 @@ def check_C04(chk):
     res, st = Q.run_batch(scens, chk.wd, mode="crash", known=chk.known_tags(), par=14)
     chk.consume(res, st, props=("C04",))
     nontrivial_seq(chk, res)
+    metaflush_design(chk)
     return chk.finish("model_checking",
                       "crash branching in TLC at the end of every fsync epoch and at the end of every recorded run: every subset (per block) of the "
                       "metadata-relevant un-synced requests (<=10 pairs exhaustive, else subsets of size <=2 and >=n-2), data-only blocks all-kept and all-lost; "
@@ -1452,6 +1453,35 @@ def check_C18(chk):
                       "with the flag clear: the spec's reader on the visible file gives the FlatDisk content and the image is safe; schedules overlap "
                       "writers/discarders with flush_meta/shrink_caches",
                       BASE_ASSUME)
+
+
+def metaflush_design(chk):
+    """Design-level model of the cache/disk ordering protocol (spec/MetaFlush.tla): crash safe with all of the
+    code's ordering rules (exhaustive TLC), and NOT crash safe without each single one (the model is not vacuous:
+    every rule is load-bearing).  A failure here is a defect of the model, i.e. a tool error, never a violation."""
+    import subprocess
+    def run(cfg):
+        md = os.path.join(Q.VERIF, "work", "gen", "mf_" + cfg)
+        try:
+            p = subprocess.run(["tlc", "-workers", "4", "-metadir", md, "-cleanup", "-noGenerateSpecTE", "-config", cfg, "MetaFlush.tla"],
+                               cwd=Q.SPEC, stdout=subprocess.PIPE, stderr=subprocess.STDOUT, text=True, timeout=900,
+                               env=dict(os.environ, JAVA_TOOL_OPTIONS=Q.JAVA_OPTS))
+        finally:
+            shutil.rmtree(md, ignore_errors=True)
+        m = re.search(r"(\d+) states generated, (\d+) distinct states found", p.stdout)
+        return ("No error has been found" in p.stdout, "Invariant CrashSafe is violated" in p.stdout, int(m.group(2)) if m else 0)
+    ok, viol, dist = run("MC_MetaFlush.cfg")
+    if not ok:
+        raise Q.ToolError("spec/MetaFlush.tla: the protocol model with all rules is not crash safe (model defect)")
+    needed = {}
+    for r in ("RuleMutex", "RuleRcFirst", "RuleBarrier", "RuleUnmapFirst"):
+        ok2, viol2, _ = run(f"MC_MetaFlush_no{r}.cfg")
+        if not viol2:
+            raise Q.ToolError(f"spec/MetaFlush.tla: switching {r} off does not break crash safety (vacuous rule)")
+        needed[r] = True
+    chk.extra.update(design_protocol_states=dist, design_protocol_rules_shown_necessary=sorted(needed))
+    chk.stats["states"] += dist
+    chk.stats["distinct"] += dist
 
 
 def alloc_design(chk):
